@@ -95,6 +95,8 @@ def _start(c, jn):
     r = c.rng.random()
     if r < 0.35:
         return None
+    if r < 0.38:
+        return {'subclass': True, 'strip': c.rng.random() < 0.3}
     if r < 0.45:
         # an edited or transported graph: its markers are equal to, not identical with, the module's (deepcopy: what |, - and
         # reconfigure do to their operands; pickle: a graph that crossed a process boundary)
